@@ -528,7 +528,7 @@ pub fn circ_finish_d3_c2() {
     circ_finish::<3, 2>()
 }
 
-//@ harness props=C12 tier=quick unwind=12 mem_gb=4 timeout=600
+//@ harness props=C12 tier=quick unwind=12 mem_gb=4 timeout=600 opt_covers=finish_err
 //@ bound: LzCircularBuffer::finish D=3 cursor=0 (nothing pending), sink failing or not
 #[cfg_attr(kani, kani::proof)]
 #[cfg_attr(kani, kani::stub(std::fmt::format, crate::verif_common::stub_format))]
